@@ -105,6 +105,7 @@ type Session struct {
 	ExtraTasks func(s *Session)
 	// ReaderFn, when set, replaces the default ReadMessage loop of the reader tasks.
 	ReaderFn      func(s *Session, e *End, t *kernel.Task)
+	halfClose     func(e *End) bool
 	SkipHandshake bool
 	NoHalfClose   bool
 }
@@ -138,8 +139,10 @@ func NewSession(p *kernel.Plan, mode kernel.Mode, maxSteps int) *Session {
 	tape := kernel.NewTape(p)
 	s := &Session{P: p, Tape: tape, S: kernel.NewSched(mode, tape, maxSteps)}
 	ca, cb := simnet.NewDuplex(s.S, tape, "A", "B")
-	s.A = &End{Name: "A", Conn: ca}
-	s.B = &End{Name: "B", Conn: cb}
+	// the Protocol only wraps the conn in bufio; creating it up front keeps the
+	// writer/reader tasks free of harness-made sharing
+	s.A = &End{Name: "A", Conn: ca, Proto: rtmp.NewProtocol(ca)}
+	s.B = &End{Name: "B", Conn: cb, Proto: rtmp.NewProtocol(cb)}
 	ab, ba := ca.Out, cb.Out
 	ab.Record, ba.Record = true, true
 	ab.RSeg, ba.RSeg = int(p.C("rsegB")), int(p.C("rsegA"))
@@ -311,7 +314,6 @@ func (s *Session) writer(e *End) func(t *kernel.Task) {
 			}
 			t.Ev("hs-ok", e.Name)
 		}
-		e.Proto = rtmp.NewProtocol(e.Conn)
 		e.hs.set()
 		idx := 0
 		if e == s.B {
@@ -337,9 +339,9 @@ func (s *Session) writer(e *End) func(t *kernel.Task) {
 				m.Timestamp = uint64(op.N[2])
 				m.Payload = Body(op)
 				want := Msg{Type: byte(op.N[0]), SID: uint32(op.N[1]), TS: uint32(op.N[2]), Payload: m.Payload}
-				st0, w0 := s.S.Steps, e.Conn.Out.St.Writes
+				st0, w0 := s.S.Now(), e.Conn.Out.St.Writes
 				err := e.Proto.WriteMessage(m)
-				e.Sent = append(e.Sent, Sent{Op: i, Msg: want, Err: err, EndOff: e.Conn.Out.Total, Step0: st0, Step1: s.S.Steps, W0: w0, W1: e.Conn.Out.St.Writes})
+				e.Sent = append(e.Sent, Sent{Op: i, Msg: want, Err: err, EndOff: e.Conn.Out.Total, Step0: st0, Step1: s.S.Now(), W0: w0, W1: e.Conn.Out.St.Writes})
 				t.Evf("wrote", "%s %v err=%v", e.Name, want, err)
 				if err != nil {
 					s.crash(e)
@@ -350,9 +352,9 @@ func (s *Session) writer(e *End) func(t *kernel.Task) {
 				pkt.ChunkSize = uint32(op.N[0])
 				b, _ := pkt.MarshalBinary()
 				want := Msg{Type: 1, SID: 0, TS: 0, Payload: b}
-				st0, w0 := s.S.Steps, e.Conn.Out.St.Writes
+				st0, w0 := s.S.Now(), e.Conn.Out.St.Writes
 				err := e.Proto.WritePacket(pkt, 0)
-				e.Sent = append(e.Sent, Sent{Op: i, Msg: want, IsSCS: true, Err: err, EndOff: e.Conn.Out.Total, Step0: st0, Step1: s.S.Steps, W0: w0, W1: e.Conn.Out.St.Writes})
+				e.Sent = append(e.Sent, Sent{Op: i, Msg: want, IsSCS: true, Err: err, EndOff: e.Conn.Out.Total, Step0: st0, Step1: s.S.Now(), W0: w0, W1: e.Conn.Out.St.Writes})
 				t.Evf("wrote-scs", "%s %d err=%v", e.Name, op.N[0], err)
 				if err != nil {
 					s.crash(e)
@@ -360,7 +362,11 @@ func (s *Session) writer(e *End) func(t *kernel.Task) {
 				}
 			}
 		}
-		if !s.NoHalfClose && !e.Crashed {
+		hc := !s.NoHalfClose
+		if s.halfClose != nil {
+			hc = s.halfClose(e)
+		}
+		if hc && !e.Crashed {
 			t.Yield("half-close:" + e.Name)
 			e.Conn.Out.CloseWrite()
 			t.Ev("half-close", e.Name)
@@ -422,13 +428,20 @@ func (s *Session) reader(e *End) func(t *kernel.Task) {
 			}
 			got := FromLib(m)
 			e.Recv = append(e.Recv, got)
-			e.RecvSteps = append(e.RecvSteps, s.S.Steps)
+			e.RecvSteps = append(e.RecvSteps, s.S.Now())
 			t.Evf("read", "%s %v", e.Name, got)
 			if s.OnRecv != nil {
 				s.OnRecv(s, e, t, m)
 			}
 		}
 	}
+}
+
+// Run2 is Run with a per-endpoint choice of who half-closes after its ops
+// (NoHalfClose is ignored).
+func (s *Session) Run2(halfClose func(e *End) bool) {
+	s.halfClose = halfClose
+	s.Run()
 }
 
 // Run executes the session to completion (or until the scheduler gives up)
@@ -448,6 +461,7 @@ func (s *Session) Run() {
 		s.B.Conn.Close()
 		s.S.Abort()
 	}
+	s.S.Join()
 }
 
 // ApplyStats copies transport counters into the result.
@@ -464,7 +478,7 @@ func (s *Session) ApplyStats(res *kernel.Result) {
 		res.Stat("fault_write_error", int64(p.St.WriteErrs))
 		res.Stat("fault_short_write", int64(p.St.Shorts))
 	}
-	res.Stat("scheduler_steps", int64(s.S.Steps))
+	res.Stat("scheduler_steps", int64(s.S.Now()))
 	res.Stat("task_switches", int64(s.S.Switches))
 	res.Hash = s.S.Log.Hash()
 	res.Inter = s.S.Log.Interleaving()
